@@ -5,7 +5,7 @@ from .store import MODES
 
 DEFAULT_WEIGHTS = {
     'addLoose': 22, 'addPacked': 16, 'packAll': 10, 'clean': 7, 'delete': 7, 'repack': 6, 'loosen': 5,
-    'reopen': 4, 'reinit': 1, 'import': 8,
+    'reopen': 4, 'reinit': 1, 'import': 8, 'repackOne': 3,
 }
 
 
@@ -32,7 +32,7 @@ def weighted(rng, weights: dict):
     return next(iter(weights))
 
 
-def next_op(rng, runner, weights=None, allow=None) -> dict:
+def next_op(rng, runner, weights=None, allow=None, reuse=0.35) -> dict:
     weights = dict(weights or DEFAULT_WEIGHTS)
     names = sorted(runner.conts)
     if len(names) < 2:
@@ -43,15 +43,38 @@ def next_op(rng, runner, weights=None, allow=None) -> dict:
     on = rng.choice(names) if kind != 'import' else None
     rc = runner.conts[on] if on else None
     if kind == 'addLoose':
-        return {'op': 'addLoose', 'on': on, 'c': pick_content(rng, runner, rc), 'via': rng.choice(['bytes', 'stream'])}
+        return {'op': 'addLoose', 'on': on, 'c': pick_content(rng, runner, rc, reuse), 'via': rng.choice(['bytes', 'stream', 'short']),
+                'short': rng.choice([1, 3, 7, 64, 5000])}
+    if kind == 'damageReadd':
+        # overwrite a loose file from outside (same length half of the time), then store the content again
+        loose = sorted(rc.raw().loose_bytes)
+        cands = [rc.cid(k) for k in loose if rc.cid(k) is not None]
+        if not cands:
+            return {'op': 'addLoose', 'on': on, 'c': pick_content(rng, runner, rc, reuse), 'via': 'bytes'}
+        k = rng.choice(cands)
+        good = runner.pool.contents[k]
+        if good and rng.random() < 0.6:
+            i = rng.randrange(len(good))
+            bad = good[:i] + bytes([good[i] ^ (1 << rng.randrange(8))]) + good[i + 1:]
+        else:
+            bad = good + b'?' if rng.random() < 0.5 else good[:-1] + b'xy'
+        c = runner.grow_pool(bad)
+        return [{'op': 'damage', 'on': on, 'k': k, 'c': c},
+                {'op': 'addLoose', 'on': on, 'c': k, 'via': rng.choice(['bytes', 'stream', 'short']), 'short': rng.choice([1, 7, 5000])}]
+    if kind == 'repackOne':
+        packs = sorted(int(x) for x in rc.raw().pack_names_valid())
+        if not packs:
+            return {'op': 'reopen', 'on': on}
+        return {'op': 'repackOne', 'on': on, 'p': rng.choice(packs), 'mode': rng.choice(MODES)}
     if kind == 'addPacked':
         n = rng.choice([1, 1, 2, 3, 4, 6])
-        cs = [pick_content(rng, runner, rc) for _ in range(n)]
+        cs = [pick_content(rng, runner, rc, reuse) for _ in range(n)]
         if n > 1 and rng.random() < 0.3:
             cs[rng.randrange(n)] = cs[0]  # duplicate inside the batch
         no_holes = rng.random() < 0.5
         return {'op': 'addPacked', 'on': on, 'cs': cs, 'compress': rng.random() < 0.5, 'no_holes': no_holes,
-                'read_twice': rng.random() < 0.5, 'via': rng.choice(['bytes', 'streams', 'single', 'lazy'])}
+                'read_twice': rng.random() < 0.5, 'via': rng.choice(['bytes', 'streams', 'single', 'lazy', 'short']),
+                'short': rng.choice([1, 5, 64, 9000])}
     if kind == 'packAll':
         mode = rng.choice(MODES + [True, False])
         return {'op': 'packAll', 'on': on, 'mode': mode, 'validate': rng.random() < 0.7, 'clean': rng.random() < 0.4}
